@@ -26,21 +26,27 @@ ENGINES = ["lean-model", "kopfsim"]
 TIE = ("S: closed-loop step refinement — the silent tail of every simulated history of the real operator (after restarts, "
        "kills before/after an applied write, downtimes, lost responses) replayed pass by pass through the Lean `loopStep`")
 LEVEL_TEXT = (
-    "Lean theorems for every state of the closed loop (any records, last-handled state, memory flags, clock, handler set, "
-    "lifecycle, limits, delays — no bounds): terminates (explicit bound 2·unfinished+awake+extras+1+keepalive rounds, ranking "
-    "function), final_state (last-handled = essence, fully handled, a further event causes no write), converges, quiescent_stays, "
-    "all_selected_completed + invoked_once_after_last_change (via C02), restart_safe (any restart/kill point incl. after the "
-    "server applied the last write), accumulated_change. The clause 'no progress records remain' is FALSE of the code: "
-    "no_records_partial under the exact guard `Purging` (handler reason, or no records), reverted_change_witness / blind_witness "
-    "(open findings C03-F3, C03-F2), skip_path_purges + stale_record_purged_instance (the former C03-F1, fixed by 2ae938f, its "
-    "witness kept as a regression case), and absorbed_change_witness for 'completed against the final state' (C03-F4); each replayed on the real "
-    "operator in every run; C03-F5, a lost wake-up after a 422 on a finalizer patch, and C03-F6, the consequence of name-addressed "
-    "patches after delete+recreate, lie in the part the model leaves to C06/C08 and are found and replayed by the oracle only). The model is hand-written and tied per pass to whole-operator simulations; finalizers/deletion "
-    "(C06), daemons (C09), consistency wait (C07) are outside this model and covered by the oracle only.")
+    "Lean theorems for every state of the closed loop of one object (any records, last-handled state, deletion mark, own "
+    "finalizer, memory flags, clock, handler set, lifecycle, limits, delays — no bounds): terminates (for every cause incl. "
+    "deletion and the finalizer-adjusting turn composed with C06's `decision`; explicit bound, ranking function), final_state "
+    "(not deleted: last-handled = essence, NO owned progress record, a further event causes no write), final_state_deleted "
+    "(marked + own finalizer: released, gone unless a foreign finalizer holds it), converges / deletion_converges, "
+    "all_selected_completed, invoked_once_after_last_change (via C02), restart_safe (induction over EVERY history of turns with "
+    "arbitrary outcomes, edits, deletion requests, restarts, kills before/after the write, from a fresh object), "
+    "accumulated_change (cause from last-handled and final essence only + at most one closing pass), skip_path_purges, "
+    "terminates_stable + filtersStable_of_essence (the guard 'filters do not read what the framework writes', explicit). "
+    "The clause 'completed against the final essential state' is FALSE of the code: completed_against_final_partial under "
+    "the exact guard + absorbed_change_witness as its negation (open finding C03-F4); 'no records / last-handled = essence' "
+    "is false for objects the framework is blind to: blind_quiescent + blind_witness (open finding C03-F2). Repaired and kept "
+    "as regressions: C03-F1 (2ae938f), C03-F3 (d1b2dc4), C03-F5 (1c8f3dd). C03-F6 (name-addressed patches after delete+recreate) "
+    "lies in C08's part and is found by the oracle only. The model is hand-written and tied per turn to whole-operator "
+    "simulations incl. finalizer turns and deletion tails; daemons (C09), the consistency wait (C07), patch conflicts (C08) and "
+    "foreign finalizer edits (C06) are outside this model.")
 THEOREMS = [("Kopf.Props.C03", "Kopf.C03." + n) for n in [
-    "terminates", "final_state", "converges", "quiescent_stays", "no_records_partial", "all_selected_completed",
-    "invoked_once_after_last_change", "restart_safe", "accumulated_change", "blind_quiescent",
-    "skip_path_purges", "stale_record_purged_instance", "reverted_change_witness", "blind_witness", "absorbed_change_witness"]]
+    "terminates", "final_state", "final_state_deleted", "converges", "deletion_converges",
+    "all_selected_completed", "completed_against_final_partial", "absorbed_change_witness",
+    "invoked_once_after_last_change", "restart_safe", "accumulated_change", "blind_quiescent", "blind_witness",
+    "skip_path_purges", "terminates_stable", "filtersStable_of_essence"]]
 RULE = ("seeded histories of one object: 1-4 change handlers (create/update/resume/delete, label filters, retries/timeout/backoff/"
         "errors, scripts with finitely many temporary/arbitrary/permanent failures then ok, three lifecycles), 0-6 external ops "
         "(spec edits, reverts, label flips, annotation edits, status-only edits, bursts, delete(+recreate), graceful stop / kill / kill right before or "
@@ -52,12 +58,18 @@ TRUSTED = ["harness/sim (virtual-time loop, fake API server, scripted handlers, 
            "harness/props/sim_c03.py (kill hooks on the in-flight PATCH, windowed connection faults)",
            "abstraction of the tail's first pass: records decoded with kopf's own progress storage (C16's subject), "
            "last-handled vs essence taken from kopf's own diff (C04's subject)"]
-ASSUMPTIONS = ["handlers are instantaneous (no awaits inside scripted handlers): both clock readings of a pass coincide",
+ASSUMPTIONS = ["GUARD FiltersStable: selection / prematch / finalizer requirement / handler behaviour do not depend on what the "
+               "framework itself writes (records, last-handled, touch-dummy, finalizer, status.<handler>); generated filters are "
+               "label filters; without the guard nothing is claimed (Props: terminates_stable)",
+               "`Env.subs` lists every sub-handler id occurring in stored or returned subrefs (else `writes` may miss a "
+               "purge-only PATCH; termination and final_state do not depend on it); no sub-handlers are generated",
+               "no foreign finalizers in generated histories (model parameter `foreignFins`, proved for both values)",
+               "handlers are instantaneous (no awaits inside scripted handlers): both clock readings of a pass coincide",
                "handlers return no result (no status.<handler> write besides the progress record)",
                "randomized/shuffled lifecycles are not modelled; filters are label filters (read the essence only)",
                "an object that no changing handler's filters accept is out of the framework's sight by design "
                "(processing.py: 'be blind to it, store no state'): for it only 'stops writing' and 'no records remain' are checked",
-               "the deletion branch is checked by the oracle only (gone or released at quiescence); its model is C06's"]
+               "a finalizer edit that also cleans the touch-dummy (two requests, two echoes) is skipped by the tie as a leading cycle"]
 
 OWN_PREFIX = "kopf.zalando.org/"
 LAST_HANDLED = OWN_PREFIX + "last-handled-configuration"
@@ -181,6 +193,10 @@ class Facts:
         self.final = tr["final_objects"].get(KEY)
         self.patches = [r for r in tr["requests"] if r["method"] == "PATCH" and OBJ in r["path"]]
         self.uid = (self.final or {}).get("metadata", {}).get("uid")
+        if self.uid is None and self.hist:        # the object is gone: the subject is the last one that existed
+            self.uid = self.hist[-1]["body"]["metadata"].get("uid")
+        self.last_body = next((v["body"] for v in reversed(self.hist)
+                               if v["event"] != "DELETED" and v["body"]["metadata"].get("uid") == self.uid), None)
         # the last version whose essence (or existence / deletion mark) differs from its predecessor: nobody but the
         # environment changes those
         # (t_for / rv_for: the last external write of any kind — the framework writes neither essence nor status here)
@@ -283,6 +299,20 @@ def oracle(ctx: Ctx, sc: dict, tr: dict) -> dict:
 
     if f.final is None:
         out["class"] = "gone"
+        lb = f.last_body
+        if lb is not None and lb["metadata"].get("deletionTimestamp") and FINALIZER in (lb["metadata"].get("finalizers") or []):
+            # the deletion went through the framework's finalizer: every matching deletion handler has a final outcome
+            # from a pass on the object marked for deletion
+            out["class"] = "gone-released"
+            for h in _changing(sc):
+                if h["kind"] != "delete" or not py_matches(h, lb):
+                    continue
+                ev = [c for c in tr["cycles"] if c["uid"] == f.uid and c.get("pcc") and c["body"]["metadata"].get("deletionTimestamp")
+                      and (c["pcc"].get("outcomes") or {}).get(h["id"], {}).get("final")]
+                if not ev and not f.cross_uid:
+                    ctx.oracle_fail(f"the object was released and is gone although its deletion handler {h['id']} never reached a final outcome",
+                                    {**rep, "last_body": lb}, {"site": "process_resource_causes", "shape": "released before the deletion handlers completed"})
+                    out["class"] = "released-early"
         return out
     if f.marked:
         fins = f.final["metadata"].get("finalizers") or []
@@ -434,24 +464,68 @@ def _keepalive_cap(ctx: Ctx) -> int:
     return int(round(float(application.WAITING_KEEPALIVE_INTERVAL) * 64))
 
 
+def py_records(body: dict, owned: list[str]) -> dict:
+    """The stored progress records of the owned handlers, decoded independently of kopf, in the model's format."""
+    from ..sim import observe
+    out = {}
+    for hid in owned:
+        rec = own_record(body, hid)
+        out[hid] = None if rec is None else {
+            "started": observe.iso_to_ticks(rec.get("started")), "delayed": observe.iso_to_ticks(rec.get("delayed")),
+            "purpose": rec.get("purpose") or None, "retries": int(rec.get("retries") or 0),
+            "success": bool(rec.get("success")), "failure": bool(rec.get("failure")),
+            "subrefs": sorted(rec.get("subrefs") or [])}
+    return out
+
+
 def abstract_tail(sc: dict, tr: dict, cap: int) -> tuple[list | None, Any]:
     f = Facts(sc, tr)
-    if f.final is None or f.marked:
-        return None, "gone-or-marked"
+    if f.last_body is None:
+        return None, "no-object"
+    if f.final is None and not f.last_body["metadata"].get("deletionTimestamp"):
+        return None, "deleted-at-once"      # no finalizer held it: the deletion itself ends the history
     if float(sc.get("settings", {}).get("watching.server_timeout", 4096.0)) < f.end:
         return None, "relisting-in-tail"
     if f.cross_uid:
         return None, "cross-uid-write"      # not silent: a write of the deleted predecessor's cycle landed on this object
-    # the tail: the last incarnation's passes on bodies that carry the last external (essence-changing) write
+    if any(x != FINALIZER for x in (f.last_body["metadata"].get("finalizers") or [])):
+        return None, "foreign-finalizer"
+    # the tail: the last incarnation's cycles on bodies that carry the last external write
     cycles = [c for c in tr["cycles"] if c["uid"] == f.uid and c["inc"] == f.last_inc and c["t0"] >= f.t_for
               and int(c["rv"]) >= f.rv_for and c["event_type"] != "DELETED"]
 
-    def suppressed(c: dict) -> bool:
+    def fin_turn(c: dict) -> str | None:
         fns = (c.get("apply") or {}).get("fns") or []
-        return c.get("pcc") is None and (bool(fns) or c.get("consistency_time") is not None or c.get("cause") is None)
+        if c.get("pcc") is None and fns:
+            return "add-finalizer" if "block_deletion" in fns else "remove-finalizer"
+        return None
 
-    while cycles and suppressed(cycles[0]):
+    def suppressed(c: dict) -> bool:       # the consistency barrier (C07) held the cycle back, or nothing was detected
+        return c.get("pcc") is None and fin_turn(c) is None and \
+            (c.get("consistency_time") is not None or c.get("cause") is None)
+
+    def dummy(c: dict) -> bool:
+        return (OWN_PREFIX + "touch-dummy") in ((c["body"].get("metadata") or {}).get("annotations") or {})
+
+    # leading cycles the model has no turn for: held back by the barrier; a finalizer edit that also cleans the
+    # touch-dummy is two requests with two echoes (C06/C08's subject)
+    def stale(c: dict) -> bool:
+        """The cycle works on a view older than what the server holds when it starts: an event that was still in
+        flight when the environment fell silent (the echo of an earlier own write, or an older foreign one)."""
+        cur = max((int(v["body"]["metadata"]["resourceVersion"]) for v in f.hist
+                   if v["t"] <= c["t0"] and v["body"]["metadata"].get("uid") == f.uid and v["event"] != "DELETED"), default=0)
+        return int(c["rv"]) < cur
+
+    dropped_dummy = False
+    while cycles and (suppressed(cycles[0]) or stale(cycles[0])
+                      or (fin_turn(cycles[0]) and (dummy(cycles[0]) or dropped_dummy))):
+        dropped_dummy = dropped_dummy or bool(fin_turn(cycles[0]) and not stale(cycles[0]))
         cycles.pop(0)
+    # after the release of a deleted object: the echo of the merge half (held back by the barrier)
+    gone = f.final is None
+    if gone:
+        while cycles and suppressed(cycles[-1]):
+            cycles.pop()
     if not cycles:
         return None, "no-tail-pass"
     c0 = cycles[0]
@@ -461,10 +535,15 @@ def abstract_tail(sc: dict, tr: dict, cap: int) -> tuple[list | None, Any]:
     owned = [d["id"] for d in decls]
     who = f"op#{f.last_inc}"      # the session identity of the incarnation that lives through the tail
     ends = [c["t0"] for c in cycles[1:]] + [f.end + 1.0]
+    blind = not any(py_matches(h, f.last_body) for h in _changing(sc))
+    change_req = any(h["kind"] == "delete" and not h.get("opts", {}).get("optional") and py_matches(h, f.last_body)
+                     for h in _changing(sc))
     passes = []
     table: dict[str, dict[str, dict]] = {}
+    prevP = py_records(c0["body"], owned)
     for c, t_next in zip(cycles, ends):
         p = c.get("pcc")
+        ft = fin_turn(c)
         if p is not None and ("P_after" not in p or "error" in (p["P_after"] or {})):
             return None, "no-P_after"
         inv = [[i["id"], i["retry"]] for i in c["invoked"] if i["id"] in owned]
@@ -476,49 +555,74 @@ def abstract_tail(sc: dict, tr: dict, cap: int) -> tuple[list | None, Any]:
                 row = {k: o[k] for k in ("final", "delay", "error", "subrefs")}
                 if table.setdefault(hid, {}).setdefault(str(r), row) != row:
                     return None, "outcome-conflict"
+            prevP = {k: v for k, v in p["P_after"].items() if k in owned}
         passes.append({
-            "reason": c["cause"]["reason"] if p is not None else "blind",
+            "reason": ft or (c["cause"]["reason"] if p is not None else "blind"),
             "selected": p["selected"] if p is not None else None,
             "invoked": inv,
             "now": p["now"] if p is not None else round(c["t0"] * 64),
-            "P": {k: v for k, v in p["P_after"].items() if k in owned} if p is not None else {k: None for k in owned},
+            "P": dict(prevP),
             "fullyHandled": bool((c.get("mem_after") or {}).get("fully_handled_once")),
             "writes": len([r for r in f.patches if r.get("who") == who and c["t0"] <= r["wall"] < t_next]),
         })
     n = len(passes)
     for k, c in enumerate(cycles):
         if k + 1 < n:
-            nxt = cycles[k + 1]["cause"]
-            passes[k]["base"] = "none" if nxt["old_absent"] else ("diff" if nxt["diff"] else "same")
+            nxt = cycles[k + 1]
+            passes[k]["base"] = "none" if nxt["cause"]["old_absent"] else ("diff" if nxt["cause"]["diff"] else "same")
+            passes[k]["blocked"] = FINALIZER in (nxt["body"]["metadata"].get("finalizers") or [])
+            passes[k]["gone"] = False
             passes[k]["pending"] = True
         else:
-            b = py_base(f.final)
-            passes[k]["base"] = "none" if b is None else ("same" if b == f.ess else "diff")
             passes[k]["pending"] = False
+            passes[k]["gone"] = gone
+            if gone:
+                # what the closing pass wrote is not observable on an object that is gone: take the model's word
+                # for `base`/`P`, which the requests' count and the next comparisons do not depend on
+                passes[k]["base"] = None
+                passes[k]["blocked"] = False
+            else:
+                b = py_base(f.final)
+                passes[k]["base"] = "none" if b is None else ("same" if b == py_essence(f.final) else "diff")
+                passes[k]["blocked"] = FINALIZER in (f.final["metadata"].get("finalizers") or [])
     p0 = c0.get("pcc")
     mb = c0.get("mem_before")
-    if p0 is None and not f.blind:
+    if p0 is None and not blind and fin_turn(c0) is None:
         return None, "first-pass-suppressed"
-    if f.blind:
-        for p in passes:
-            p["fullyHandled"] = bool(mb and mb["fully_handled_once"])
+    if c0.get("cause") is None:
+        return None, "no-cause"
+    # memory flags of cycles that do not reach the handlers stay what they were
+    fh = bool(mb["fully_handled_once"]) if mb else False
+    for p, c in zip(passes, cycles):
+        if c.get("pcc") is None:
+            p["fullyHandled"] = fh
+        fh = p["fullyHandled"]
+    pp = next((c["pcc"] for c in cycles if c.get("pcc")), None)
     req = ["C03.run", {
-        "decls": p0["decls"] if p0 else decls, "matched": p0["matched"] if p0 else [], "subs": [],
-        "lifecycle": sc.get("lifecycle") or "asap", "limits": p0["limits"] if p0 else {},
-        "P": {k: v for k, v in p0["P"].items() if k in owned} if p0 else {},
+        "decls": pp["decls"] if pp else decls, "matched": pp["matched"] if pp else [], "subs": [],
+        "lifecycle": sc.get("lifecycle") or "asap", "limits": pp["limits"] if pp else {},
+        "P": py_records(c0["body"], owned),
         "outcomes": table,
         "base": "none" if c0["cause"]["old_absent"] else ("diff" if c0["cause"]["diff"] else "same"),
         "noticed": bool(mb["noticed_by_listing"]) if mb else c0["event_type"] is None,
         "fullyHandled": bool(mb["fully_handled_once"]) if mb else False,
-        "prematch": not f.blind, "now": passes[0]["now"],
+        "marked": bool(c0["body"]["metadata"].get("deletionTimestamp")),
+        "blocked": FINALIZER in (c0["body"]["metadata"].get("finalizers") or []),
+        "changeReq": change_req, "foreignFins": False,
+        "prematch": not blind, "now": passes[0]["now"],
         "lat": 1 + round(float((sc.get("echo_delay") or {}).get("default", 0.0)) * 64), "cap": cap,
         "fuel": n + 8, "universe": owned}]
     return req, {"passes": passes, "quiescent": True}
 
 
-def model_view(out: dict) -> dict:
-    keys = ("reason", "selected", "invoked", "now", "P", "fullyHandled", "writes", "base", "pending")
-    return {"passes": [{k: p[k] for k in keys} for p in out["passes"]], "quiescent": out["quiescent"]}
+def model_view(out: dict, impl: dict) -> dict:
+    keys = ("reason", "selected", "invoked", "now", "P", "fullyHandled", "writes", "base", "blocked", "gone", "pending")
+    rows = [{k: p[k] for k in keys} for p in out["passes"]]
+    if rows and impl["passes"] and impl["passes"][-1].get("gone") and len(rows) == len(impl["passes"]):
+        # the object is gone: its last records / last-handled annotation cannot be observed
+        rows[-1]["base"] = None
+        rows[-1]["P"] = impl["passes"][-1]["P"]
+    return {"passes": rows, "quiescent": out["quiescent"]}
 
 
 # ---- generator ------------------------------------------------------------------------------------------------
@@ -559,6 +663,15 @@ def gen_scenario(rng: Any, i: int) -> dict:
                 script.append(a)
                 fail_time += 3.0
         handlers.append({"kind": kind, "id": f"{kind[0]}{k}", "opts": opts, "script": script, "default": "ok", "record_body": True})
+    deletion = rng.random() < 0.18
+    if deletion and not any(h["kind"] == "delete" and not h["opts"].get("optional") for h in handlers):
+        # a history that ends with a deletion held by the framework's finalizer: a mandatory deletion handler
+        script = [rng.choice([["temp", 1.0], ["temp", 3.0], "arb"]) for _ in range(rng.choice([0, 1, 2]))]
+        fail_time += 4.0 * len(script)
+        opts = {"backoff": 1.0}
+        if rng.random() < 0.2:
+            opts["labels"] = {"l": "1"}
+        handlers.append({"kind": "delete", "id": f"d{len(handlers)}", "opts": opts, "script": script, "default": "ok", "record_body": True})
     echo = rng.choice([0.0, 0.0, 0.0, 0.015625, 0.0625, 0.5])
     body0 = {"spec": {"x": 0}, "metadata": {"labels": {"l": rng.choice(["0", "1", "1"])}}}
     empty = rng.random() < 0.14
@@ -645,6 +758,16 @@ def gen_scenario(rng: Any, i: int) -> dict:
                     tl.append([t, "edit", "a", {"spec": {"x": x}}])
             t += rng.choice([0.5, 2.0, 5.0, 20.0])
             tl.append([t, "start"])
+    if deletion:
+        t += step()
+        tl.append([t, "delete", "a"])
+        if rng.random() < 0.3:        # the operator is killed in the middle of the deletion and comes back
+            t += rng.choice([0.015625, 0.5, 2.0])
+            tl.append([t, rng.choice(["kill", "killw", "stop"])] + ([rng.choice(["before", "after"])] if tl and False else []))
+            if tl[-1][1] == "killw":
+                tl[-1].append(rng.choice(["before", "after"]))
+            t += rng.choice([0.5, 3.0])
+            tl.append([t, "start"])
     sc["timeline"] = tl
     if wfaults:
         sc["wfaults"] = wfaults
@@ -702,6 +825,9 @@ def _evaluate(ctx: Ctx, scenarios: list[dict], tie: bool = True) -> None:
                 ctx.count("tie", f"skipped:{impl}")
             else:
                 ctx.count("tie", "compared")
+                for p in impl["passes"]:
+                    ctx.count("tail_turn", p["reason"])
+                ctx.count("tail_end", "gone" if impl["passes"][-1].get("gone") else "live")
                 ctx.count("tail_passes", len(impl["passes"]))
                 shape["tail"] = [(p["reason"], len(p["invoked"]), p["writes"]) for p in impl["passes"]]
                 shape["lc"] = sc.get("lifecycle")
@@ -723,7 +849,7 @@ def _evaluate(ctx: Ctx, scenarios: list[dict], tie: bool = True) -> None:
         if not out or out[0] != "ok":
             ctx.tie_fail("driver rejected a tail", {"request": req, "answer": out, **wh})
             continue
-        ctx.compare("C03 silent tail", impl, model_view(out[1]), wh)
+        ctx.compare("C03 silent tail", impl, model_view(out[1], impl), wh)
 
 
 def run(ctx: Ctx) -> None:
